@@ -39,6 +39,88 @@ def disabled(opts, syn):
     return (syn == "OER" and "-no-gen-OER" in opts) or (syn == "UPER" and "-no-gen-PER" in opts)
 
 
+def real_round(chk, tc, rng, quick):
+    """the shipped X.509 / LDAP (thorough: UMTS RRC) specifications built under several option sets; every build decodes the shipped
+    sample PDU and encodes it in the five syntaxes: all columns must equal those of the first build"""
+    from .. import realpdu
+    base = ("-fcompound-names", "-fwide-types")       # what the examples' makefiles use
+    extra = [("-findirect-choice",), ("-fno-constraints",), ("-fno-include-deps",), ("-fincludes-quoted",)]
+    ropts = ["-findirect-choice", "-fno-constraints", "-fno-include-deps", "-fincludes-quoted"]
+    if not quick:
+        extra += [tuple(sorted(rng.sample(ropts, k))) for k in (2, 3, 4)]
+    for name in realpdu.names(quick):
+        osets = [base] + [base + e for e in (extra if name != "RRC" else [("-findirect-choice", "-fno-constraints")])] + [("-fcompound-names",)]
+        osets = list(dict.fromkeys(osets))
+        root = build.scratch_dir("c13real")
+        with ThreadPoolExecutor(6 if name != "RRC" else 3) as ex:
+            blds = list(ex.map(lambda o: realpdu.make(tc, name, options=o, root=root), osets))
+        cols = []
+        smp = realpdu.samples(tc, [name])
+        for b in blds:
+            if b.exe is None:
+                cols.append(None)
+                if b is blds[0]:
+                    chk.inconcl("shipped specification %s not built with the base options (%s)" % (name, b.error[0]))
+                else:
+                    chk.inconcl("shipped specification not built under an option set (%s)" % b.error[0])
+                    chk.count("unbuilt:real:" + " ".join(b.options))
+                continue
+            cases = [drv.Case(i + 1, ["dec s=0 t=%s syn=%s in=%s" % (pdu, syn, drv.hx(data))] + ["enc s=0 syn=%s" % s_ for s_ in SYNS] + ["free s=0"])
+                     for i, (spec, pdu, syn, label, data) in enumerate(smp)]
+            cols.append(drv.run_parallel(b.exe, cases, per_case_timeout=120))
+        if cols[0] is None:
+            continue
+        for b, res in zip(blds[1:], cols[1:]):
+            if res is None:
+                continue
+            optkey = " ".join(b.options)
+            for i, (spec, pdu, syn, label, data) in enumerate(smp):
+                r0, r = cols[0].get(i + 1), res.get(i + 1)
+                if r0 is None or r0.status != "ok" or len(r0.events) < 1 + len(SYNS):
+                    continue
+                replay = {"module": b.text, "pdu": pdu, "options": list(b.options), "base_options": list(base), "sample": "examples/" + label}
+                key = {"options": optkey, "kind": "real", "fids": [], "sample": label}
+                if r is None or r.status == "notrun":
+                    chk.inconcl("case not run")
+                    continue
+                if r.status in ("crash", "hang"):
+                    kind, frame = drv.classify_report(r.stderr)
+                    chk.evaluations += 1
+                    chk.violation(dict(key, symptom=r.status, report=kind, frame=frame),
+                                  "shipped sample %s under [%s]: %s (%s in %s) where the base build runs clean" % (label, optkey, r.status, kind, frame),
+                                  dict(replay, stderr=r.stderr[-2500:]))
+                    continue
+                ev0, ev = r0.events, r.events
+                if ev[0].get("rc") != ev0[0].get("rc") or ev[0].get("consumed") != ev0[0].get("consumed"):
+                    chk.evaluations += 1
+                    wide0, widex = "-fwide-types" in blds[0].options, "-fwide-types" in b.options
+                    if wide0 != widex and (ev[0] if wide0 else ev0[0]).get("rc") == "FAIL" and (ev0[0] if wide0 else ev[0]).get("rc") == "OK":
+                        # the certificate's 128-bit serial number: the native-long build may reject, not mis-encode (assumption above)
+                        chk.count("real_native_build_rejects_wide_value")
+                        continue
+                    chk.violation(dict(key, symptom="decode-differs", syntax=syn),
+                                  "shipped sample %s under [%s]: decode answers %s/%s, base build %s/%s" % (
+                                      label, optkey, ev[0].get("rc"), ev[0].get("consumed"), ev0[0].get("rc"), ev0[0].get("consumed")), replay)
+                    continue
+                for j, s_ in enumerate(SYNS):
+                    chk.evaluations += 1
+                    chk.seen(("real", label, s_, b.options))
+                    e0, e = ev0[1 + j], ev[1 + j]
+                    ok0, okx = e0.get("rc") not in ("-1", None), e.get("rc") not in ("-1", None)
+                    if ok0 != okx:
+                        chk.violation(dict(key, syntax=s_, symptom="encodes-only-with" if okx else "encodes-only-without"),
+                                      "shipped sample %s: %s encoding %s under [%s] but %s under [%s]" % (
+                                          label, s_, "succeeds" if okx else "fails", optkey, "succeeds" if ok0 else "fails", " ".join(base)), replay)
+                    elif ok0 and e.get("out") != e0.get("out"):
+                        chk.violation(dict(key, syntax=s_, symptom="bytes-differ"),
+                                      "shipped sample %s: %s bytes under [%s] differ from those under [%s]" % (label, s_, optkey, " ".join(base)),
+                                      dict(replay, syntax=s_, observed=(e.get("out") or "")[:4000], base=(e0.get("out") or "")[:4000]))
+                    else:
+                        chk.count("real_same_" + s_)
+        import shutil
+        shutil.rmtree(root, ignore_errors=True)
+
+
 def run(tier, seed):
     chk = core.Check("C13", tier, seed)
     quick = tier == "quick"
@@ -47,7 +129,8 @@ def run(tier, seed):
                 "-fno-constraints} and with -no-gen-OER / -no-gen-PER (quick: default + each single option + 2 random subsets; thorough: all 64 subsets for "
                 "some modules, random subsets for the rest); every build runs the same script per (type, value): reference DER in, DER/UPER/OER/CXER/BXER "
                 "out, then the default build's outputs in and DER out; judged: every column (rc, bytes) equals the default build's; a codec is compared "
-                "only where both builds have it; distinct = distinct (module, type, value, syntax, option set)")
+                "only where both builds have it; likewise the shipped X.509 / LDAP (thorough: UMTS RRC) specifications with their sample PDUs under -fcompound-names "
+                "plus further options; distinct = distinct (module, type, value, syntax, option set)")
     chk.assumptions = ["values beyond the native long range are compared only between builds that decode them (the native build may reject, not mis-encode)",
                        "a build that does not compile under an option set is C10's finding and inconclusive here"]
     tc = build.toolchain()
@@ -59,6 +142,7 @@ def run(tier, seed):
     root = build.scratch_dir("c13")
     tc.tool("asn1c", "asan"); tc.skel("asan"); tc.driver_obj("vdriver", "asan"); tc.driver_obj("ledger", "asan")
     from ..asn import shapes
+    real_round(chk, tc, rng, quick)
     for mi in range(nmod + 1):
         mseed = seed * 1000 + 1300 + mi
         osets = option_sets(tier, rng, mi < nfull or mi == nmod)
